@@ -166,11 +166,13 @@ def check_class(drv, cls, class_dump, values, out, stats, label, history=None):
     for c in get_object_classes(cls):
         classes.setdefault(c.__name__, []).append(c)
     # --- the model: annotation text of every property
+    model_ann = {}
     if class_dump is not None:
         rep = drv.ask({"op": "emit_module", "elements": [class_dump]})
         if "error" not in rep and rep.get("r") == "ok":
             out.traces_validated += 1
             model = {c["name"]: {p["attr"]: norm(p["ann"]) for p in c["props"]} for c in rep["classes"]}
+            model_ann = model.get(cls.__name__, {}) if len(classes.get(cls.__name__, [])) == 1 else {}
             for c in get_object_classes(cls):
                 if len(classes[c.__name__]) != 1:
                     continue      # a name the tree uses for several class objects: the model keys classes by name
@@ -193,7 +195,8 @@ def check_class(drv, cls, class_dump, values, out, stats, label, history=None):
             case = {"label": label, "class": class_dump, "history": history, "value": core.enc_arg(v), "property": name, "annotation": text}
             out.note_case({"class": class_dump, "value": core.enc_arg(v), "property": name}, text not in ("Any", "Maybe[Any]"))
             stats["ann-" + ("Maybe" if text.startswith("Maybe[") else "bare")] = stats.get("ann-" + ("Maybe" if text.startswith("Maybe[") else "bare"), 0) + 1
-            finding = "C19-allof-annotation" if has_allof_nonhead(prop.element) else None
+            # a listed finding only where the model predicts the very annotation the library printed
+            finding = "C19-allof-annotation" if has_allof_nonhead(prop.element) and model_ann.get(name) == norm(text) else None
             try:
                 ok = conforms(attr, ast.parse(text, mode="eval"), classes)
             except (Bad, SyntaxError) as exc:
@@ -261,10 +264,23 @@ ALLOF_WITNESS = {"cls": "Object", "name": "Holder", "kw": {"hasProps": True}, "p
 
 def allof_family(rng):
     q = {"cls": "Object", "name": "Q", "kw": {"hasProps": True}, "props": [[{"name": "a", "source": "a", "required": True}, {"cls": "Integer", "kw": {}}]]}
-    first = rng.choice([{"cls": "Element", "kw": {"required": ["a"]}}, {"cls": "Element", "kw": {}}, {"cls": "Element", "kw": {"minItems": {"i": "1"}}}])
-    second = rng.choice([q, {"cls": "String", "kw": {}}, {"cls": "Array", "kw": {"itemsKind": "single"}, "items": [q]}, {"cls": "Integer", "kw": {}}])
+    first = rng.choice([{"cls": "Element", "kw": {"required": ["a"]}}, {"cls": "Element", "kw": {}}, {"cls": "Element", "kw": {"minItems": {"i": "1"}}},
+                        {"cls": "Number", "kw": {}}, {"cls": "Integer", "kw": {}}, {"cls": "Number", "kw": {"minimum": {"i": "0"}}}])
+    second = rng.choice([q, {"cls": "String", "kw": {}}, {"cls": "Array", "kw": {"itemsKind": "single"}, "items": [q]}, {"cls": "Integer", "kw": {}},
+                         {"cls": "Number", "kw": {}}, {"cls": "Integer", "kw": {"multipleOf": {"i": "1"}}}])
     members = [first, second] if rng.random() < 0.8 else [second, first]
-    return {"cls": "AllOf", "kw": {}, "elements": members}, [{"a": 1}, "s", [{"a": 2}], 3, [], {}]
+    inner = {"cls": "AllOf", "kw": {}, "elements": members}
+    if rng.random() < 0.3:
+        return {"cls": "Array", "kw": {"itemsKind": "single"}, "items": [inner]}, [[1, 2], [3], [], [{"a": 1}], ["s"], 3]
+    return inner, [{"a": 1}, "s", [{"a": 2}], 3, [], {}, 4, 2.5]
+
+
+def class_default_family(rng):
+    """a property whose element is a model class with a class-level default (the empty object included)"""
+    d = rng.choice([{}, {}, {"a": 1}, {"b": "x"}])
+    inner = {"cls": "Object", "name": "Inner", "kw": {"hasProps": True, "default": core.enc_val(d)},
+             "props": [[{"name": "a", "source": "a"}, {"cls": "Integer", "kw": {}}], [{"name": "b", "source": "b"}, {"cls": "String", "kw": {}}]]}
+    return inner, [{"a": 2}, {}, {"b": "y"}, 3]
 
 
 def run(ctx, scale=1.0):
@@ -280,7 +296,7 @@ def run(ctx, scale=1.0):
         dg, vg = dsl.DumpGen(rng), ValueGen(rng)
         n = int(N_TREES[ctx["tier"]] * scale)
         for i in range(n):
-            fam = ["random", "random", "random", "twin-tuple", "composition", "random", "subclass", "allof"][i % 8]
+            fam = ["random", "random", "class-default", "twin-tuple", "composition", "random", "subclass", "allof"][i % 8]
             stats["family-" + fam] = stats.get("family-" + fam, 0) + 1
             if fam == "subclass":
                 check_subclass(drv, rng, dg, out, stats, i)
@@ -294,6 +310,8 @@ def run(ctx, scale=1.0):
                     sub, vals = comp_of_classes(rng)
                 elif fam == "allof":
                     sub, vals = allof_family(rng)
+                elif fam == "class-default":
+                    sub, vals = class_default_family(rng)
                 else:
                     sub = dg.dump(3)
                     try:
